@@ -44,9 +44,12 @@ def register(reg):
              ensures=[('property', f'out_ok(body, {FRESH})'),
                       ('property', f'{S} == {OS}[:-1] + [spec_goto({OTOP}, out_frame(body, {FRESH}).cursor.pos)]')],
              raises={'FailedParse': [f'not out_ok(body, {FRESH})', SAME]}, propagates=[GROW])
+    # a group is a value scope (its own frame, merged on success, dropped on failure) but not a cut scope:
+    # the flag of the body's frame is or-ed into the enclosing frame on both exits
     contract(reg, f'{X}:ParseContext.group', ALL, {'self': 'Ctx'}, ret='None', requires=REQ, ghost=BODY,
-             ensures=[('property', f'out_ok(body, {OTOP})'), ('property', f'{S} == {OS}[:-1] + [out_frame(body, {OTOP})]')],
-             raises={'FailedParse': [f'not out_ok(body, {OTOP})', f'{S} == {OS}[:-1] + [out_fail_frame(body, {OTOP})]']},
+             ensures=[('property', f'out_ok(body, {FRESH})'),
+                      ('property', f'{S} == {OS}[:-1] + [spec_cut_or(spec_merged({OTOP}, out_frame(body, {FRESH})), out_cut(body, {FRESH}))]')],
+             raises={'FailedParse': [f'not out_ok(body, {FRESH})', f'{S} == {OS}[:-1] + [spec_cut_or({OTOP}, out_cut(body, {FRESH}))]']},
              propagates=[GROW])
 
 
@@ -150,19 +153,21 @@ def register3(reg):
 def register4(reg):
     """generated-code twins of the naming nodes (C02).  The emitted block binds `last_node`; it equals what the
     model's Named/NamedList/Override bind exactly when the block satisfies GEN-LAST (its last_node is its value)."""
-    F = f'out_frame(body, {OTOP})'
+    # the block runs on the frame with its last node cleared, so the node bound is the block's own (or None)
+    B0 = f'spec_with_last({OTOP}, None)'
+    F = f'out_frame(body, {B0})'
 
     def binds(key, combine, value):
         return (f'{S} == {OS}[:-1] + [spec_with_ast({F}, dict_with({F}.ast, uf_safekey({key}), '
                 f'{combine}(dict_get({F}.ast, uf_safekey({key})), {value})))]')
 
-    fails = {'FailedParse': [f'not out_ok(body, {OTOP})', f'{S} == {OS}[:-1] + [out_fail_frame(body, {OTOP})]']}
+    fails = {'FailedParse': [f'not out_ok(body, {B0})', f'{S} == {OS}[:-1] + [out_fail_frame(body, {B0})]']}
     for meth, key, combine, sig in (('nameset', 'name', 'spec_cstadd', {'self': 'Ctx', 'name': 'str'}),
                                     ('nameadd', 'name', 'spec_cstaddlist', {'self': 'Ctx', 'name': 'str'}),
                                     ('result', "'__vallue__'", 'spec_cstadd', {'self': 'Ctx'}),
                                     ('resultadd', "'__vallue__'", 'spec_cstaddlist', {'self': 'Ctx'})):
         contract(reg, f'{X}:ParseContext.{meth}', ['C02'], sig, ret='None', requires=REQ, ghost=BODY,
-                 ensures=[('property', f'out_ok(body, {OTOP})'),
+                 ensures=[('property', f'out_ok(body, {B0})'),
                           ('property', binds(key, combine, f'{F}.last_node')),
-                          ('property', f'implies({F}.last_node == out_ret(body, {OTOP}), ' + binds(key, combine, f'out_ret(body, {OTOP})') + ')')],
+                          ('property', f'implies({F}.last_node == out_ret(body, {B0}), ' + binds(key, combine, f'out_ret(body, {B0})') + ')')],
                  raises=fails, propagates=[GROW])
